@@ -136,7 +136,7 @@ def detectorMatches (refs : List RefSt) (ds : List Detector) : Bool :=
   refs.length == ds.length &&
   (List.range refs.length).all fun i =>
     match refs[i]?, ds[i]? with
-    | some r, some d => r.lastResp == d.epoch && r.refreshCnt == d.k && r.deCalls == d.de && r.refreshing == d.refreshing
+    | some r, some d => r.lastResp == d.epoch && r.refreshCnt == d.k && r.deCalls == min d.de 4294967295 && r.refreshing == d.refreshing
     | _, _ => false
 
 /-- the rule of C07: this completion must start a refresh (after counting it) -/
